@@ -32,22 +32,24 @@ def sameUpToDash : Text → Text → Bool
 /-- `multispace1` characters -/
 def isWs (c : Char) : Bool := c = ' ' ∨ c = '\t' ∨ c = '\n' ∨ c = '\r'
 
-mutual
-/-- `opt_spacelike`: `fold_many0(alt((ignore_space, ignore_lcomment)))` — what is left of the input -/
-def skip : Text → Text
-  | [] => []
-  | c :: rest =>
-    if isWs c then skip rest
-    else if c = '/' then
-      match rest with
-      | '/' :: r => skipLine r
-      | _ => c :: rest
-    else c :: rest
-/-- inside `//…`: `opt(is_not("\n"))`, then back to the loop (the newline is `ignore_space`) -/
-def skipLine : Text → Text
-  | [] => []
-  | c :: rest => if c = '\n' then skip rest else skipLine rest
-end
+/-- state of the skipper: between tokens, after one `/`, inside `//…` -/
+inductive Mode where
+  | normal | slash | comment
+
+/-- `opt_spacelike`: `fold_many0(alt((ignore_space, ignore_lcomment)))` — what is left of the
+input.  `ignore_lcomment` is `tag("//")` + `opt(is_not("\n"))`; the closing newline is consumed
+as `ignore_space` by the next round of the loop.  A single `/` is not a separator. -/
+def skipM : Mode → Text → Text
+  | .normal, [] => []
+  | .slash, [] => ['/']
+  | .comment, [] => []
+  | .normal, c :: rest =>
+    if isWs c then skipM .normal rest else if c = '/' then skipM .slash rest else c :: rest
+  | .slash, c :: rest => if c = '/' then skipM .comment rest else '/' :: c :: rest
+  | .comment, c :: rest => if c = '\n' then skipM .normal rest else skipM .comment rest
+
+def skip (t : Text) : Text := skipM .normal t
+def skipLine (t : Text) : Text := skipM .comment t
 
 /-- separators the rewriter inserts: blanks and silent comments (each closed by its newline) -/
 inductive Sep : Text → Prop where
